@@ -78,8 +78,9 @@ def env():
 
 
 # ------------------------------------------------------------------------------ values
-def s_of(cps) -> str:
-    return ''.join(chr(c) for c in cps)
+def s_of(cps):
+    """Python value of a string argument; the empty sequence is passed as []"""
+    return [] if cps is None else ''.join(chr(c) for c in cps)
 
 
 def num_value(n):
@@ -108,13 +109,15 @@ def fnum(x: float):
 
 
 def cps_line(cps) -> str:
-    return ' '.join(str(c) for c in cps)
+    """a string as code points; None = the empty sequence"""
+    return '-' if cps is None else ' '.join(str(c) for c in cps)
 
 
-def case_line(case) -> str:
+def case_line(case, compat: bool = False) -> str:
+    """driver request; compat = the XPath 1.0 reading (XPath1Parser: compatibility_mode is True)"""
     op, args = case['op'], case['args']
     kinds = OPS[op][1]
-    out = [op]
+    out = [op + '1' if (compat and op == 'translate') else op]
     for k, a in zip(kinds, args):
         if k == 'S':
             out.append(cps_line(a))
@@ -126,15 +129,13 @@ def case_line(case) -> str:
         elif k == 'T':
             out.extend(cps_line(x) for x in a)
     if op in ('upper', 'lower'):
-        s = s_of(args[0])
-        chars = sorted(set(args[0]))
+        chars = sorted(set(args[0] or []))
         f = str.upper if op == 'upper' else str.lower
         out.append(','.join(f'{c}:{cps_line([ord(x) for x in f(chr(c))])}' for c in chars))
         if op == 'lower':
             cased, ign = case_props(chars)
             out.append(cps_line(cased))
             out.append(cps_line(ign))
-        del s
     return '|'.join(out)
 
 
@@ -197,9 +198,32 @@ def expr_of(case) -> tuple[str, dict]:
     return e, var
 
 
-def run_impl(case, pidx: int) -> str:
-    E = env()
+def variants(case, pidx: int):
+    """the expressions through which the case is evaluated by parser `pidx`: the function call with
+    all arguments as variables, plus (where they exist) the operator / short forms / literal forms"""
     e, var = expr_of(case)
+    out = [(e, var, 'call')]
+    op, args = case['op'], case['args']
+    if op == 'concat' and pidx >= 2:
+        out.append((' || '.join(f'$a{i}' for i in range(len(args[0]))), var, 'operator-||'))
+    if op == 'join' and pidx >= 2 and args[0] == []:
+        out.append(('string-join($a1)', var, 'string-join/1'))
+    if op in ('substring2', 'substring3'):
+        lits = []
+        for n in args[1:]:
+            if n[0] == 'f' and n[1] not in ('nan', 'inf', '-inf'):
+                x = float.fromhex(n[1])
+                if abs(x) < 1e6 and x * 4 == int(x * 4) and str(x) != '-0.0':
+                    lits.append(repr(x))        # exact both as xs:decimal (2.0+) and as a 1.0 number
+        if len(lits) == len(args) - 1:
+            out.append(('substring($a0,' + ','.join(lits) + ')', {'a0': var['a0']}, 'literal-numbers'))
+    return out
+
+
+def run_impl(case, pidx: int, e=None, var=None) -> str:
+    E = env()
+    if e is None:
+        e, var = expr_of(case)
     try:
         return canon(E['ep'].select(E['root'], e, parser=E['parsers'][pidx], variables=var))
     except Exception as ex:  # every exception is part of the observed behaviour
@@ -220,6 +244,8 @@ def run_lxml(case):
     for k, v in var.items():
         if isinstance(v, str):
             lv[k] = v
+        elif isinstance(v, list) and not v:
+            lv[k] = []           # empty node-set: its string value is ''
         elif isinstance(v, float):
             lv[k] = v
         elif isinstance(v, (int, Decimal)) and not isinstance(v, bool):
@@ -313,7 +339,9 @@ def gen_num(rng, n, wide=True):
     if r < 0.6:
         x = rng.randint(-6, 2 * n + 8) / 2.0
         return fnum(math.nextafter(x, rng.choice([-math.inf, math.inf])))   # one ulp off the grid
-    if r < 0.72:
+    if r < 0.66:
+        return fnum(rng.choice(SPECIAL_F[:3]))                    # NaN, +INF, -INF
+    if r < 0.74:
         return fnum(rng.choice(SPECIAL_F))
     if r < 0.8:
         return ('i', str(rng.randint(-3, n + 3)))
@@ -364,6 +392,14 @@ def gen_case(rng, ops=None):
         args = [l]
     else:
         args = [s]
+    if rng.random() < 0.05:
+        # an empty-sequence argument where the signature has xs:string? / xs:string
+        kinds = OPS[op][1]
+        idx = [i for i, k in enumerate(kinds) if k == 'S']
+        if idx:
+            args[rng.choice(idx)] = None
+        elif op == 'concat':
+            args[0][rng.randrange(len(args[0]))] = None
     return {'op': op, 'args': args}
 
 
@@ -420,6 +456,18 @@ CORPUS = [
     {'op': 'iri', 'args': [S('http://www.example.com/~bébé <a>')]},
     {'op': 'html', 'args': [S("javascript:if (navigator.browserLanguage == 'fr') window.open('http://www.example.com/~bébé');")]},
     {'op': 'concat', 'args': [[S('un'), S('grateful'), []]]},
+    {'op': 'concat', 'args': [[S('a'), None, S('b')]]},
+    {'op': 'compare', 'args': [None, S('a')]},
+    {'op': 'cpequal', 'args': [S('a'), None]},
+    {'op': 'translate', 'args': [S('a'), None, S('b')]},
+    {'op': 'translate', 'args': [None, S('a'), S('b')]},
+    {'op': 'contains', 'args': [S('a'), None]},
+    {'op': 'after', 'args': [S('a'), None]},
+    {'op': 's2cp', 'args': [None]},
+    {'op': 'length', 'args': [None]},
+    {'op': 'substring3', 'args': [None, fnum(1.0), fnum(2.0)]},
+    {'op': 'join', 'args': [None, [S('a'), S('b')]]},
+    {'op': 'join', 'args': [[], [S('a'), S('b')]]},
     {'op': 'join', 'args': [S(' '), [S('Now'), S('is'), []]]},
 ]
 
@@ -429,6 +477,10 @@ ACTIVE_OPS = list(OPS)
 # ----------------------------------------------------------------------- correspondence
 def nontrivial(case) -> bool:
     return any(len(a) > 0 for a in case['args'] if isinstance(a, list))
+
+
+def has_empty_seq(case) -> bool:
+    return any(a is None or (isinstance(a, list) and any(x is None for x in a)) for a in case['args'])
 
 
 def branch_of(case) -> str:
@@ -443,7 +495,7 @@ def branch_of(case) -> str:
             return ('half' if half else 'int' if fr.denominator == 1 else 'frac') + ('-' if fr < 0 else '+')
         return op + ':' + ','.join(cls(n) for n in case['args'][1:])
     if op == 'translate':
-        m, t = case['args'][1], case['args'][2]
+        m, t = case['args'][1] or [], case['args'][2] or []
         return 'translate:' + ('dup,' if len(set(m)) < len(m) else '') + \
             ('eq' if len(m) == len(t) else 'map-longer' if len(m) > len(t) else 'trans-longer')
     return op
@@ -452,46 +504,51 @@ def branch_of(case) -> str:
 def compare(run: Run, cases: list) -> None:
     E = env()
     lines = [case_line(c) for c in cases]
-    uniq = sorted(set(lines))
+    lines1 = [case_line(c, True) for c in cases]
+    uniq = sorted(set(lines) | set(lines1))
     ans = dict(zip(uniq, run.driver('C09', uniq)))
     st = run.stats
-    for case, line in zip(cases, lines):
-        a = ans[line]
+    for case, line, line1 in zip(cases, lines, lines1):
         op = case['op']
         site = OPS[op][4]
-        if '|' not in a:
-            run.disagree(Disagreement(case, 'driver:' + a, what='protocol'))
+        if '|' not in ans[line] or '|' not in ans[line1]:
+            run.disagree(Disagreement(case, 'driver:' + ans[line] + ' ' + ans[line1], what='protocol'))
             continue
-        model, spec = a.split('|')
         st.case({'op': op, 'line': line}, nontrivial=nontrivial(case))
         st.count('branch:' + branch_of(case))
+        if has_empty_seq(case):
+            st.count('arg:empty-sequence')
         lx = run_lxml(case)
         for pidx in range(OPS[op][2], 4):
-            impl = run_impl(case, pidx)
             pname = E['parsers'][pidx].__name__
-            st.count('parser:' + pname)
-            if impl.startswith('ERR'):
-                st.count('result:' + impl)
-            c = dict(case, parser=pname, expr=expr_of(case)[0])
-            if impl != spec:
-                run.disagree(Disagreement(c, impl, model, spec, what=f'{op}-vs-F&O', site=site, tags=[]))
-            elif impl != model:
-                run.disagree(Disagreement(c, impl, model, spec, what=f'{op}-model', site=site))
-            if pidx == 0 and lx is not None and impl == spec and lx != impl:
-                # implementation and spec agree with each other but not with libxml2
-                run.disagree(Disagreement(c, impl, model, lx, what=f'{op}-vs-libxml2', site=site,
-                                          tags=[]))
+            model, spec = ans[line1 if pidx == 0 else line].split('|')
+            for e, var, form in variants(case, pidx):
+                impl = run_impl(case, pidx, e, var)
+                st.count('parser:' + pname)
+                if form != 'call':
+                    st.count('form:' + form)
+                if impl.startswith('ERR'):
+                    st.count('result:' + impl)
+                c = dict(case, parser=pname, expr=e)
+                if impl != spec:
+                    run.disagree(Disagreement(c, impl, model, spec, what=f'{op}-vs-F&O', site=site, tags=[]))
+                elif impl != model:
+                    run.disagree(Disagreement(c, impl, model, spec, what=f'{op}-model', site=site))
+                if pidx == 0 and form == 'call' and lx is not None and impl == spec and lx != impl:
+                    # implementation and spec agree with each other but not with libxml2
+                    run.disagree(Disagreement(c, impl, model, lx, what=f'{op}-vs-libxml2', site=site,
+                                              tags=[]))
         if lx is None:
             st.count('libxml2:n/a' if OPS[op][3] else 'libxml2:not-1.0')
         else:
             st.count('libxml2:compared')
-            if lx != spec:
+            if lx != ans[line1].split('|')[1]:
                 st.count('libxml2:differs-from-spec')
 
 
 def correspond(run: Run) -> None:
     rng = run.rng
-    n = run.scale(7000, 120000)
+    n = run.scale(30000, 400000)
     cases = list(CORPUS) + [gen_case(rng) for _ in range(n)]
     run.stats.rule = ('one case = one function call (op, arguments); strings over small random alphabets drawn from '
                       'ASCII, XML and non-XML whitespace, astral, combining, BMP-edge, non-XML (NUL, surrogates) code '
@@ -499,8 +556,8 @@ def correspond(run: Run) -> None:
                       'one ulp off it, +-INF, NaN, +-0, subnormal, huge, ints, decimals; each case is evaluated by '
                       'every parser class that has the function (up to 4) and by libxml2 for XPath 1.0 functions. '
                       'distinct = distinct driver request lines with a non-empty argument')
-    for i in range(0, len(cases), 5000):
-        compare(run, cases[i:i + 5000])
+    for i in range(0, len(cases), 25000):
+        compare(run, cases[i:i + 25000])
 
 
 def search(run: Run):
@@ -559,7 +616,9 @@ def shrink(d: Disagreement) -> Disagreement:
         kinds = OPS[case['op']][1]
         cands = []
         for i, (k, a) in enumerate(zip(kinds, case['args'])):
-            if k in ('S', 'L'):
+            if a is None:
+                cands.append({'op': case['op'], 'args': case['args'][:i] + [[]] + case['args'][i + 1:]})
+            elif k in ('S', 'L'):
                 for j in range(len(a)):
                     cands.append({'op': case['op'], 'args': case['args'][:i] + [a[:j] + a[j + 1:]] + case['args'][i + 1:]})
                 for j, c in enumerate(a):
